@@ -292,6 +292,9 @@ def validate_property_class(val, name, class_, parent):
         val = class_(**val)
     elif val is None:
         val = class_()
+    elif isinstance(val, class_):
+        # take over a copy: the object that provided it keeps its own, independent instance
+        val = val.copy()
     if not isinstance(val, class_):
         raise ValueError(
             f"the `{name}` property of `{type(parent).__name__}` must be an instance \n"
